@@ -188,7 +188,7 @@ claim("C04",
       "results wait at the rewards barrier), C04_reply, C04_absorbing (+frame: FORBIDDEN with the same view, reward, reason; no "
       "counter changes), C04_defender_reason; across labels, for every reachable state and every continuation: C04_reason_stays / "
       "C04_late_defender (Props/C04_reason.v: an attacker's reason does not change until the reset task runs, whatever it asks for; a "
-      "Defender paid at a later run of the reward task in the same episode is told Fail as long as a successful attacker is in the game), C04_stays_ended (ended, "
+      "Defender paid at a later run of the reward task in the same episode is told Fail as long as a successful attacker is in the game; C05_benign_unpaid: the reward task leaves a Benign agent's record as it is), C04_stays_ended (ended, "
       "step counter and view frozen until the reset task or departure), C04_limit (Proofs/CoordLimit.v: in every reachable state an "
       "agent with step limit m > 0 has at most m steps and has ended once it has m), C04_origin, C04_one_label (complete case list of what one label can do "
       "to one agent's record). The goal check itself (Model/Goal.v = GameCoordinator.goal_check on the views of the world model; "
